@@ -79,6 +79,19 @@ pub fn check_stream(ctx: &Ctx, bytes: &[u8], expect: &[u8], what: &str, with_xz:
         ctx.violation(&case, &format!("{}: lzma2_decompress Ok, output == {} ({} bytes), reader left after the end byte ({} consumed)", what, brief_bytes(expect), expect.len(), bytes.len()), &obs_of(v, out, consumed), None);
         return;
     }
+    // the same stream from a source that hands over one byte / three bytes at a time
+    for rd in [Rd { period: 1, ..Rd::default() }, Rd { bufreader: 3, ..Rd::default() }] {
+        if bytes.len() > 4096 {
+            break;
+        }
+        let case = Case::Dec { fmt: Fmt::Lzma2, opts: Opts::default(), input: Hex(bytes.to_vec()), rd: rd.clone(), sk: Sk::default() };
+        let o = crate::cases::run_case(&case);
+        ctx.traces.fetch_add(1, Ordering::Relaxed);
+        if !(o.v.is_ok() && o.out.0 == expect && o.consumed == bytes.len()) {
+            ctx.violation(&case, &format!("{} read through {:?}: Ok, output == {} ({} bytes)", what, rd, brief_bytes(expect), expect.len()), &o, None);
+            return;
+        }
+    }
     // raw decoder
     let mut h = RawH::new_lzma2();
     let r = h.apply(&RawOp::Dec(Hex(bytes.to_vec())));
@@ -107,7 +120,7 @@ pub fn run(tier: Tier) -> i32 {
     let seed = ctx.seed;
 
     // ---------------------------------------------------------------- scope 1: all chunk sequences
-    for (reduced, depth) in tier.pick(vec![(false, 3usize)], vec![(false, 3usize), (true, 4usize)]) {
+    for (reduced, depth) in tier.pick(vec![(false, 3usize)], vec![(false, 4usize)]) {
         let kinds = chunk_kinds(seed, reduced);
         let name = format!("chunk-sequences/{}kinds/depth<={}", kinds.len(), depth);
         if !ctx.may_start(&name) {
@@ -223,6 +236,47 @@ pub fn run(tier: Tier) -> i32 {
             for nlit in [52000usize, 56000] {
                 let q: Vec<Sym> = (0..nlit as u32).map(|i| Sym::L((i.wrapping_mul(2654435761) >> 13) as u8)).collect();
                 cases.push((format!("LZMA chunk with {} incompressible literals (packed size near 2^16)", nlit), vec![Chunk::C { class: 3, props: (0, 0, 0), prog: q }]));
+            }
+            // packed size exactly 2^16 and 2^16 - 1 (the largest encodable compressed size): searched for
+            for want in [65536usize, 65535] {
+                let gen = |n: usize, salt: u32| -> Vec<Sym> { (0..n as u32).map(|i| Sym::L((i.wrapping_add(salt).wrapping_mul(2654435761) >> 13) as u8)).collect() };
+                let plen = |q: &Vec<Sym>| crate::refmodel::enc::encode(0, 0, 0, u64::MAX, q).payload.len();
+                let mut found = None;
+                // coarse approach, then literal by literal, then vary the last literals
+                let mut n = 60000usize;
+                loop {
+                    let len = plen(&gen(n, 0));
+                    if len + 64 >= want {
+                        break;
+                    }
+                    n += (want - len) * 9 / 10;
+                }
+                'search: for m in n..n + 400 {
+                    let base = gen(m, 0);
+                    let len = plen(&base);
+                    if len == want {
+                        found = Some(base);
+                        break;
+                    }
+                    if len > want {
+                        for back in 1..=3usize {
+                            for v in 0..=255u8 {
+                                let mut q = gen(m - back, 0);
+                                let l = q.len();
+                                q[l - 1] = Sym::L(v);
+                                if plen(&q) == want {
+                                    found = Some(q);
+                                    break 'search;
+                                }
+                            }
+                        }
+                        break;
+                    }
+                }
+                match found {
+                    Some(q) => cases.push((format!("LZMA chunk with compressed size exactly {}", want), vec![Chunk::C { class: 3, props: (0, 0, 0), prog: q }])),
+                    None => ctx.machinery_error(&format!("could not construct a chunk with compressed size exactly {}", want)),
+                }
             }
             // dictionary reset in mid-stream after > 64 KiB, then references must stay inside the new dictionary
             cases.push((
